@@ -72,19 +72,96 @@ def switch_of_local(fn, local, start_bb, max_steps=6):
     return None
 
 
+PRED_METHODS = {
+    # method -> (enum, variant it tests for)
+    'core::task::poll::Poll::is_ready': ('core::task::poll::Poll', 'Ready'),
+    'core::task::poll::Poll::is_pending': ('core::task::poll::Poll', 'Pending'),
+    'core::option::Option::is_some': ('core::option::Option', 'Some'),
+    'core::option::Option::is_none': ('core::option::Option', 'None'),
+    'core::result::Result::is_ok': ('core::result::Result', 'Ok'),
+    'core::result::Result::is_err': ('core::result::Result', 'Err'),
+}
+
+
+def _norm_test(e, target):
+    """If expression e is a test of `target` (an expression), returns how: ('direct',) ('not',) ('discr',) ('pred', enum, variant, negated)."""
+    if e == target:
+        return ('direct',)
+    if e[0] == 'discr' and e[1] == target:
+        return ('discr',)
+    if e[0] == 'unop' and e[1] == 'Not':
+        inner = _norm_test(e[2], target)
+        if inner is None:
+            return None
+        if inner[0] == 'direct':
+            return ('not',)
+        if inner[0] == 'not':
+            return ('direct',)
+        if inner[0] == 'pred':
+            return ('pred', inner[1], inner[2], not inner[3])
+        return None
+    if e[0] == 'call' and e[1] in PRED_METHODS and e[2] and e[2][0] == target:
+        en, var = PRED_METHODS[e[1]]
+        return ('pred', en, var, False)
+    return None
+
+
 def result_edges(fn, call_bb):
-    """Edges of the switch on the result of the call ending block call_bb: {variant value or 'otherwise': target}."""
+    """Edges of the test of the result of the call ending block call_bb, normalised to the discriminant space of the result:
+    {value: target, 'otherwise': target, '_bb': switch block}.  Understands a direct `match`/`if let`, `if x`/`if !x`, a named
+    temporary, and the predicate methods (is_some / is_none / is_ready / is_pending / is_ok / is_err) on the result."""
     t = fn.blocks[call_bb]['term']
     if t['target'] is None or t['dest']['p']:
         return None
-    r = switch_of_local(fn, t['dest']['l'], t['target'])
-    if not r:
+    d = t['dest']['l']
+    r = switch_of_local(fn, d, t['target'])
+    if r:
+        bb, m, oth = r
+        m = dict(m)
+        m['otherwise'] = oth
+        m['_bb'] = bb
+        return m
+    target = fn.expr_of_local(d)
+    if target[0] == 'var':
         return None
-    bb, m, oth = r
-    m = dict(m)
-    m['otherwise'] = oth
-    m['_bb'] = bb
-    return m
+    reach = fn.reachable_blocks(t['target'])
+    dom = fn.dominators()
+    best = None
+    for bb in sorted(reach):
+        b = fn.blocks[bb]
+        sw = b['term']
+        if not sw or sw['k'] != 'switch' or b['cleanup'] or sw['discr']['k'] == 'const':
+            continue
+        if sw['discr']['pl']['p']:
+            continue
+        e = fn.expr_of_local(sw['discr']['pl']['l'])
+        how = _norm_test(e, target)
+        if how is None:
+            continue
+        if best is not None and best[0] in dom.get(bb, set()):
+            continue   # keep the first (dominating) test
+        best = (bb, sw, how)
+    if best is None:
+        return None
+    bb, sw, how = best
+    tg = dict((v, tb) for v, tb in sw['targets'])
+    oth = sw['otherwise']
+    if how[0] in ('direct', 'discr'):
+        m = dict(tg)
+        m['otherwise'] = oth
+        m['_bb'] = bb
+        return m
+    zero = tg.get('0', oth)      # test value false
+    one = oth if '0' in tg else tg.get('1', oth)
+    if how[0] == 'not':
+        return {'0': one, 'otherwise': zero, '_bb': bb}
+    if how[0] == 'pred':
+        en, var, neg = how[1], how[2], how[3]
+        true_t, false_t = (zero, one) if neg else (one, zero)
+        dv = STD_DISCR[en]
+        other = [v for v in dv if v != var][0]
+        return {dv[var]: true_t, dv[other]: false_t, 'otherwise': false_t if dv[var] != '0' else true_t, '_bb': bb}
+    return None
 
 
 def edge_for(edges, adt, variant):
@@ -181,5 +258,155 @@ def upvar_of(expr):
 
 
 def all_paths_pass(fn, src_bb, through):
-    """Every path from the start of src_bb to a normal exit passes one of the blocks in `through`."""
-    return fn.must_pass(src_bb, set(fn.exits()), set(through))
+    """Every (feasible) path from the start of src_bb to a normal exit passes one of the blocks in `through`."""
+    if fn.must_pass(src_bb, set(fn.exits()), set(through)):
+        return True
+    return not feasible_reach(fn, src_bb, set(fn.exits()), set(through))
+
+
+# ---------------------------------------------------------------------------------------------
+# Path-sensitive reachability: plain dominance cannot see that `let b = matches!(x, P); if b {..}` only enters the branch on the
+# arms that stored `true`.  A small constant-propagating exploration (bools and enum variants of locals, disjunctive) answers
+# "is there a feasible path from `src` to one of `targets` that avoids `avoid`?".
+
+def _vset(V, l, val):
+    items = [(k, v) for k, v in V if k != l]
+    if val is not None:
+        items.append((l, val))
+        items.sort()
+    return tuple(items)
+
+
+def _vget(V, l):
+    for k, v in V:
+        if k == l:
+            return v
+    return None
+
+
+def _variant_of(fn, ty, val):
+    head = ty_head(clean_ty(ty))
+    if head in STD_DISCR:
+        for name, d in STD_DISCR[head].items():
+            if d == str(val):
+                return name
+        return None
+    return fn.facts.variant_by_discr(head, val)
+
+
+def feasible_reach(fn, src, targets, avoid, limit=40000):
+    targets, avoid = set(targets), set(avoid)
+    start = (0, (), src == 0)
+    seen = {start}
+    work = [start]
+    n = 0
+    while work:
+        bb, V, armed = work.pop()
+        n += 1
+        if n > limit:
+            return True       # give up: assume reachable (conservative for "must pass" queries)
+        if bb == src:
+            armed = True
+        if armed and bb in avoid:
+            continue
+        if armed and bb in targets:
+            return True
+        b = fn.blocks[bb]
+        for s in b['stmts']:
+            if s['k'] == 'dead':
+                V = _vset(V, s['l'], None)
+                continue
+            if s['k'] != 'assign' or s['pl']['p']:
+                continue
+            l = s['pl']['l']
+            rv = s['rv']
+            val = None
+            k = rv['k']
+            if k == 'use':
+                o = rv['op']
+                if o['k'] == 'const' and o.get('ty') == 'bool' and 'val' in o:
+                    val = ('bool', int(o['val']))
+                elif o['k'] in ('copy', 'move') and not o['pl']['p']:
+                    val = _vget(V, o['pl']['l'])
+            elif k == 'agg' and rv.get('ak') == 'adt':
+                val = ('enum', rv['variant'])
+            elif k == 'unop' and rv['op'] == 'Not' and rv['a']['k'] in ('copy', 'move') and not rv['a']['pl']['p']:
+                v0 = _vget(V, rv['a']['pl']['l'])
+                if v0 and v0[0] == 'bool':
+                    val = ('bool', 1 - v0[1])
+            elif k == 'discr' and not rv['pl']['p']:
+                v0 = _vget(V, rv['pl']['l'])
+                if v0 and v0[0] == 'enum':
+                    val = ('discof', rv['pl']['l'])
+            V = _vset(V, l, val)
+        t = b['term']
+        if not t:
+            continue
+        succ = []
+        k = t['k']
+        if k == 'switch' and t['discr']['k'] in ('copy', 'move') and not t['discr']['pl']['p']:
+            dv = _vget(V, t['discr']['pl']['l'])
+            listed = [v for v, _ in t['targets']]
+            if dv and dv[0] == 'bool':
+                hit = [tb for v, tb in t['targets'] if v == str(dv[1])]
+                succ = hit if hit else [t['otherwise']]
+            elif dv and dv[0] == 'discof':
+                ev = _vget(V, dv[1])
+                ty = fn.local_ty(dv[1])
+                if ev and ev[0] == 'enum':
+                    hit = [tb for v, tb in t['targets'] if _variant_of(fn, ty, v) == ev[1]]
+                    succ = hit if hit else [t['otherwise']]
+                else:
+                    succ = fn.succs(bb)
+            else:
+                succ = fn.succs(bb)
+        elif k == 'call':
+            if t['target'] is not None:
+                d = t['dest']
+                V2 = V
+                if not d['p']:
+                    val = None
+                    name = t['func'].get('fn') or ''
+                    if name in PRED_METHODS and t['args'] and t['args'][0]['k'] in ('copy', 'move'):
+                        # predicate on a local whose variant is known (through a `&x` temporary)
+                        e = fn.expr_of_operand(t['args'][0])
+                        if e[0] == 'var':
+                            ev = _vget(V, e[1])
+                            if ev and ev[0] == 'enum':
+                                val = ('bool', int(ev[1] == PRED_METHODS[name][1]))
+                    V2 = _vset(V, d['l'], val)
+                st = (t['target'], V2, armed)
+                if st not in seen:
+                    seen.add(st)
+                    work.append(st)
+            continue
+        else:
+            succ = fn.succs(bb)
+        for sb in succ:
+            st = (sb, V, armed)
+            if st not in seen:
+                seen.add(st)
+                work.append(st)
+    return False
+
+
+_plain_edom = edom
+
+
+def edom(fn, tgt, b):   # noqa: F811  (path-sensitive refinement of the plain version above)
+    if tgt is None:
+        return False
+    if _plain_edom(fn, tgt, b):
+        return True
+    dom = fn.dominators()
+    entries = [p for p in fn.preds().get(tgt, []) if tgt not in dom.get(p, set()) and p in dom]
+    if len(entries) > 1:
+        return False
+    return not feasible_reach(fn, 0, {b}, {tgt})
+
+
+def must_pass_ps(fn, src, targets, through):
+    """Every (feasible) path from src to a target passes a block in `through`."""
+    if fn.must_pass(src, set(targets), set(through)):
+        return True
+    return not feasible_reach(fn, src, targets, through)
